@@ -744,3 +744,28 @@ def _from_ast(n):
     if isinstance(n, ast.IfExp):
         return ("if", _from_ast(n.test), _from_ast(n.body), _from_ast(n.orelse))
     raise ValueError(ast.dump(n))
+
+
+
+# ---------------------------------------------------------------------------------------------
+# environment grid (mc/envgrid.py): the signature of an expression is the same string in every process (it is hashed into the semantic
+# ids), and the agreement / disagreement of signatures does not depend on the process either
+
+def env_cases(tier: str):
+    out = []
+    pool = CHAIN_POOL[: (8 if tier == "quick" else len(CHAIN_POOL))]
+    for op in ("+", "*"):
+        for k in (2, 3, 4):
+            for start in range(0, len(pool) - k + 1, 2):
+                ops = pool[start:start + k]
+                forms = [txt(b) for b in list(bracketings(list(ops), op))[:3]] + [txt(b) for b in list(bracketings(list(reversed(ops)), op))[:2]]
+                out.append({"forms": forms, "different": [txt(("b", "-", ops[0], ops[1])), txt(("b", "-", ops[1], ops[0]))]})
+    for a, b in BUILT_PAIRS:
+        out.append({"forms": [a], "different": [a, b]})
+    return out
+
+
+def env_observe(case):
+    sigs = [impl_sig(f) for f in case["forms"]]
+    diff = [impl_sig(f) for f in case["different"]]
+    return {"signatures": sigs, "commuted_forms_agree": len(set(sigs)) == 1, "non_commutative_swap_differs": len(set(diff)) == len(diff), "different": diff}
